@@ -139,33 +139,37 @@ void run_dynamic(Out &out, size_t U, size_t nops, size_t nbulk, int layout, uint
         Api::it_destroy(it);
         return r;
     };
-    auto obs = [&] {
+    // light: a short observation (size, a few finds, two traversals) made right after single calls, so that a result
+    // that is only refreshed by SOME of the updating calls is seen stale
+    auto obs = [&](bool light) {
         std::vector<std::vector<long long>> finds;
-        for (size_t j = 0; j < 40; ++j) {
+        for (size_t j = 0; j < (light ? 6 : 40); ++j) {
             size_t i = rng.below(U);
             K v = 0;
             bool f = Api::find(d, keys[i], &v);
             finds.push_back({(long long) i, f ? (long long) v : 0});
         }
         std::string lbs = "[";
-        for (size_t j = 0; j < 12; ++j) {
+        for (size_t j = 0; j < (light ? 2 : 12); ++j) {
             size_t i = j == 0 ? 0 : j == 1 ? U - 1 : rng.below(U);
             if (j) lbs += ",";
             lbs += "{\"q\":" + std::to_string(i) + ",\"limit\":25,\"r\":" + jarr2(traverse(Api::lower_bound(d, keys[i]), 25)) + "}";
         }
         lbs += "]";
-        out.begin("CObs").raw("find", jarr2(finds)).raw("lbs", lbs).raw("begin", jarr2(traverse(Api::begin(d), 60))).num("blimit", 60)
+        size_t blimit = light ? 6 : 60;
+        out.begin("CObs").raw("find", jarr2(finds)).raw("lbs", lbs).raw("begin", jarr2(traverse(Api::begin(d), blimit))).num("blimit", (long long) blimit)
             .num("size", (long long) Api::size(d)).end();
     };
-    obs();
+    obs(false);
     long long val = 1;
     for (size_t i = 0; i < nops; ++i) {
         long long k = (long long) rng.below(U);
         if (rng.chance(3, 10)) { Api::erase(d, keys[k]); out.begin("Del").num("k", k).str("out", "ok").end(); }
         else { Api::put(d, keys[k], K(val)); out.begin("Put").num("k", k).num("v", val).str("out", "ok").end(); val = val % 100 + 1; }
-        if ((i + 1) % 97 == 0) obs();
+        if ((i + 1) % 97 == 0) obs(false);
+        else if ((i + 1) % 97 <= 4 && i > 4) obs(true);      // after each of the four calls that follow a full observation
     }
-    obs();
+    obs(false);
     Api::destroy(d);
     out.begin("End").end();
 }
